@@ -1,10 +1,206 @@
-"""C08 on shipped models (filled in later)."""
-from mc import core
+"""C08 part (b): memory-composed real x86 instructions on shipped models.
+
+For each vocabulary instruction the expectation is computed from the *plain YAML* of the model
+(register-form entry found with the reference matcher of C07, load/store rows and multipliers
+with mc/ref/compose.py); instructions for which the model has an own memory entry are analysed
+directly and are not part of this check."""
+import itertools
+import traceback
+
+from mc import core, drive
+from mc.ref import compose as RC
+from mc.ref import match as RM
+from mc.checks import c07
+
+_MODELS = {}
+_PLAIN = {}
+
+MEMS = {
+    "(%rax)": dict(base="gpr", index=None, offset=None, scale=1),
+    "16(%rax)": dict(base="gpr", index=None, offset="imd", scale=1),
+    "(%rax,%rbx,8)": dict(base="gpr", index="gpr", offset=None, scale=8),
+    "16(%rax,%rbx)": dict(base="gpr", index="gpr", offset="imd", scale=1),
+}
+
+
+def vocab():
+    """(text template with {M}, memory position, does_load, does_store)"""
+    V = []
+    for mn in ("vaddpd", "vmulpd", "vsubpd", "vfmadd231pd", "vmaxpd"):
+        for regs in (("%xmm1", "%xmm2"), ("%ymm1", "%ymm2")):
+            V.append(("%s {M}, %s, %s" % (mn, regs[0], regs[1]), 0, True, False))
+    for mn in ("addq", "subq", "andq", "orq", "xorq", "imulq", "cmpq"):
+        V.append(("%s {M}, %%rcx" % mn, 0, True, False))
+    for mn in ("addq", "subq", "andq", "orq", "xorq"):
+        V.append(("%s %%rcx, {M}" % mn, 1, True, True))      # read-modify-write
+    for mn in ("incq", "decq", "negq", "notq"):
+        V.append(("%s {M}" % mn, 0, True, True))
+    V.append(("vaddsd {M}, %xmm1, %xmm2", 0, True, False))
+    V.append(("vmulss {M}, %xmm1, %xmm2", 0, True, False))
+    V.append(("vsqrtpd {M}, %ymm2", 0, True, False))
+    V.append(("popcntq {M}, %rcx", 0, True, False))
+    return V
+
+
+def find_entry(entries, isa, mnemonic, kinds, wildcard_pos=None):
+    """first entry in file order (after the documented suffix fall-back) the reference accepts;
+    with wildcard_pos the operand at that position matches any *register* pattern"""
+    for name in (mnemonic, mnemonic[:-1] if mnemonic[-1] in "bswlqt" else None):
+        if name is None:
+            continue
+        for e in entries:
+            if name.upper() not in [n.upper() for n in c07.names_of(e)]:
+                continue
+            pats = e.get("operands") or []
+            if len(pats) != len(kinds):
+                continue
+            ok = True
+            for k, (p, kd) in enumerate(zip(pats, kinds)):
+                if k == wildcard_pos:
+                    if p.get("class") != "register":
+                        ok = False
+                else:
+                    r = RM.match("x86", p, kd)
+                    if r is None:
+                        return "unspecified"
+                    if not r:
+                        ok = False
+                if not ok:
+                    break
+            if ok:
+                return e
+    return None
+
+
+def case(item):
+    arch, vi, mt = item
+    text_t, mpos, ld, st = _VOC[vi]
+    text = text_t.replace("{M}", mt)
+    out = {"bad": [], "n": 0, "status": None}
+    try:
+        plain = _PLAIN[arch]
+        mm, sem = _MODELS[arch]
+        parser = drive.get_parser("x86")
+        kernel = parser.parse_file(text + "\n")
+        ins = kernel[0]
+        kinds = [RM.kind_of("x86", o) for o in ins.operands]
+        entries = plain["instruction_forms"]
+        own = find_entry(entries, "x86", ins.mnemonic, kinds)
+        if own == "unspecified" or own is not None:
+            out["status"] = "own-entry"
+            return item, out
+        regform = find_entry(entries, "x86", ins.mnemonic, kinds, wildcard_pos=mpos)
+        if isinstance(regform, dict) and regform.get("port_pressure") is not None and \
+                not isinstance(regform["port_pressure"], dict):
+            from mc.checks import c15 as _c15
+            if _c15.uops_problem(regform["port_pressure"], [str(p) for p in plain["ports"]]):
+                out["status"] = "malformed-entry"   # C15 owns the well-formedness of entries
+                return item, out
+        sem.add_semantics(kernel)
+        unknown = "tp_unknown" in ins.flags
+        if regform == "unspecified":
+            out["status"] = "unspecified"
+            return item, out
+        if regform is None:
+            out["status"] = "unknown"
+            out["n"] = 1
+            if not unknown:
+                out["bad"].append(("flag", "%r: neither form is in the model but it is not flagged "
+                                   "unknown" % text))
+            return item, out
+        if regform.get("throughput") is None or regform.get("latency") is None or \
+                regform.get("port_pressure") is None or isinstance(regform["port_pressure"], dict):
+            out["status"] = "incomplete-entry"
+            return item, out
+        from mc.checks import c15
+        if c15.uops_problem(regform["port_pressure"], [str(p) for p in plain["ports"]]):
+            out["status"] = "malformed-entry"   # C15 owns the well-formedness of entries
+            return item, out
+        # read-modify-write needs the ISA database to say so; otherwise the default rule applies
+        reg_type = str(regform["operands"][mpos].get("name")).lower()
+        if reg_type not in ("gpr", "xmm", "ymm", "zmm"):
+            out["status"] = "unspecified"
+            return item, out
+        sd = ins.semantic_operands
+        is_ld = any(type(o).__name__ == "MemoryOperand" for o in sd["source"] + sd["src_dst"])
+        is_st = any(type(o).__name__ == "MemoryOperand" for o in sd["destination"] + sd["src_dst"])
+        if (is_ld, is_st) != (ld, st):
+            out["status"] = "roles-differ"   # ISA roles are C03's subject, not checked here
+            ld_, st_ = is_ld, is_st
+        else:
+            ld_, st_ = ld, st
+        model = dict(plain)
+        exp = RC.compose("x86", model, regform, MEMS[mt], reg_type, ld_, st_)
+        if exp is None:
+            out["status"] = "unspecified"
+            return item, out
+        out["status"] = out["status"] or "composed"
+        out["n"] = 4
+        if unknown:
+            out["bad"].append(("flag", "%r is flagged unknown although its register form (%s) is in "
+                               "the model" % (text, c07.names_of(regform))))
+            return item, out
+        if any(abs(a - b) > 1e-9 for a, b in zip(ins.port_pressure, exp["pressure"])):
+            out["bad"].append(("pressure", "%r: pressure %r, expected %r (register form + load/store "
+                               "rows for %s)" % (text, [round(x, 4) for x in ins.port_pressure],
+                                                 [round(x, 4) for x in exp["pressure"]], reg_type)))
+        if abs(float(ins.latency) - exp["latency"]) > 1e-9:
+            out["bad"].append(("latency", "%r: latency %r, expected %r" % (text, ins.latency,
+                                                                           exp["latency"])))
+        if abs(float(ins.throughput) - exp["throughput"]) > 1e-9:
+            out["bad"].append(("throughput", "%r: throughput %r, expected %r"
+                               % (text, ins.throughput, exp["throughput"])))
+    except Exception:
+        out["bad"].append(("exception", traceback.format_exc()[-1200:]))
+    return item, out
+
+
+_VOC = []
 
 
 def run_part(ctx):
-    return core.Result()
+    res = core.Result()
+    _VOC[:] = vocab()
+    archs = ["zen1", "zen3"] if not ctx.thorough else drive.shipped_archs("x86")
+    drive.stage_and_parse(ctx, archs + ["isa/x86"])
+    from osaca import utils
+    for a in archs:
+        mm = drive.MachineModel(arch=a)
+        _MODELS[a] = (mm, drive.ArchSemantics(mm))
+        _PLAIN[a] = c07.load_plain(utils.find_datafile(a + ".yml"))
+    items = [(a, vi, mt) for a in archs for vi in range(len(_VOC)) for mt in MEMS]
+    out = core.pmap(case, items)
+    import collections
+    st = collections.Counter()
+    for (arch, vi, mt), o in out:
+        res.states += 1
+        res.traces += 1
+        res.transitions += o["n"]
+        st[o["status"]] += 1
+        if o["status"] in ("composed", "roles-differ"):
+            res.nontrivial += 1
+        if o["status"] == "unspecified":
+            res.unspecified += 1
+        res.outcomes.add((arch, o["status"]))
+        for kind, what in o["bad"]:
+            res.violations.append(core.Violation(
+                {"part": "shipped-models", "kind": kind, "arch": arch},
+                "[%s] %s" % (arch, what),
+                {"arch": arch, "vocab_index": vi, "mem": mt, "what": what}))
+    res.extra["shipped_composition_status"] = dict(st)
+    res.add_sample({"shipped_model_case": ["zen1", _VOC[0][0].replace("{M}", "(%rax)")]})
+    return res
 
 
 def replay(ctx, payload):
-    return 0
+    r = payload["replay"]
+    _VOC[:] = vocab()
+    drive.stage_and_parse(ctx, [r["arch"], "isa/x86"])
+    from osaca import utils
+    mm = drive.MachineModel(arch=r["arch"])
+    _MODELS[r["arch"]] = (mm, drive.ArchSemantics(mm))
+    _PLAIN[r["arch"]] = c07.load_plain(utils.find_datafile(r["arch"] + ".yml"))
+    _, o = case((r["arch"], r["vocab_index"], r["mem"]))
+    for b in o["bad"]:
+        print(b)
+    return 1 if o["bad"] else 0
